@@ -361,6 +361,30 @@ func (s *Store) commit(r *Resource, k objKey, o Object, typ, actor string) Objec
 	return mustParse(raw)
 }
 
+// validateRevisionSchema: what the shipped CRD of ControllerRevision demands of
+// children[] - apiGroup, kind and names are required, names is an array and not
+// nullable (a null is pruned and the required check then fails).
+func validateRevisionSchema(r *Resource, name string, o Object) *StatusErr {
+	if r != ResRevision {
+		return nil
+	}
+	for i, c := range getList(o, "children") {
+		cm, ok := c.(map[string]interface{})
+		if !ok {
+			return errInvalid(r, name, fmt.Sprintf("children[%d]: Invalid value: must be an object", i))
+		}
+		if _, isList := cm["names"].([]interface{}); !isList {
+			return errInvalid(r, name, fmt.Sprintf("children[%d].names: Required value", i))
+		}
+		for _, f := range []string{"apiGroup", "kind"} {
+			if _, isStr := cm[f].(string); !isStr {
+				return errInvalid(r, name, fmt.Sprintf("children[%d].%s: Required value", i, f))
+			}
+		}
+	}
+	return nil
+}
+
 func validateOwnerRefs(r *Resource, name string, o Object) *StatusErr {
 	n := 0
 	seen := map[string]bool{}
@@ -548,6 +572,9 @@ func (s *Store) Create(r *Resource, ns string, body Object, actor string) (Objec
 	}
 	o["kind"] = r.Kind
 	o["apiVersion"] = r.APIVersion()
+	if e := validateRevisionSchema(r, name, o); e != nil {
+		return nil, e
+	}
 	if e := validateMetaTypes(r, name, o); e != nil {
 		return nil, e
 	}
@@ -608,6 +635,9 @@ func (s *Store) Update(r *Resource, ns, name, sub string, body Object, actor str
 	}
 	if rv, _ := m["resourceVersion"].(string); rv != "" && rv != curMeta["resourceVersion"] {
 		return nil, errConflict(r, name, "the object has been modified; please apply your changes to the latest version and try again")
+	}
+	if e := validateRevisionSchema(r, name, o); e != nil {
+		return nil, e
 	}
 	if e := validateMetaTypes(r, name, o); e != nil {
 		return nil, e
